@@ -73,18 +73,27 @@ def polygon(rng, cx=None, cy=None, ccw=None):
     return [shell] + holes
 
 
+NONFINITE = (float('nan'), float('inf'), float('-inf'))
+
+
 def element(kind, rng, allow_nonfinite=False):
     if kind == 'point':
-        return [coord(rng), coord(rng)]
+        out = [coord(rng), coord(rng)]
+        if allow_nonfinite and rng.random() < 0.2:
+            out[rng.randrange(2)] = rng.choice(NONFINITE)
+        return out
     if kind == 'multipoint':
-        return [coord(rng) for _ in range(2 * rng.choice([0, 1, 2, 3, 4]))]
+        out = [coord(rng) for _ in range(2 * rng.choice([0, 1, 2, 3, 4]))]
+        if allow_nonfinite and out and rng.random() < 0.2:
+            out[rng.randrange(len(out))] = rng.choice(NONFINITE)
+        return out
     if kind == 'line':
         n = rng.choice([1, 2, 2, 3, 4, 5])
         out = [coord(rng) for _ in range(2 * n)]
         if rng.random() < 0.2 and n >= 2:    # repeated vertex / zero-length segment
             out[2:4] = out[0:2]
         if allow_nonfinite and rng.random() < 0.15:
-            out[rng.randrange(len(out))] = float('nan')
+            out[rng.randrange(len(out))] = rng.choice(NONFINITE)
         return out
     if kind == 'ring':
         return simple_ring(rng, rng.randint(-3, 6), rng.randint(-3, 6), 3, rng.random() < 0.5)
@@ -115,6 +124,18 @@ def elements(kind, rng, n=None, p_missing=0.2, p_empty=0.1, allow_nonfinite=Fals
         else:
             out.append(element(kind, rng, allow_nonfinite))
     return out
+
+
+def scaled(x, f):
+    """every coordinate multiplied by f (a power of two: exact)"""
+    if x is None:
+        return None
+    if isinstance(x, list):
+        return [scaled(v, f) for v in x]
+    return float(x) * f
+
+
+SCALES = (2.0 ** -14, 2.0 ** -20, 2.0 ** -30, 2.0 ** 12)
 
 
 def build(kind, els):
